@@ -59,6 +59,10 @@ def run_translator():
     rc, out, err, dt = sh([exe, REPO, os.path.join(COQ, "Gen")])
     if rc != 0:
         raise CheckFailure("translate", "rs2v rejected the current source", (out + err)[-4000:])
+    # the UAPI side of C19: tables from the installed kernel headers through the C compiler
+    rc2, out2, err2, _ = sh([sys.executable, os.path.join(VERIF, "tools", "uapi_gen.py"), os.path.join(COQ, "Gen")])
+    if rc2 != 0:
+        raise CheckFailure("translate", "uapi_gen.py could not build the UAPI tables (names in vhost_binding.rs the header does not know?)", (out2 + err2)[-4000:])
     return out.strip()
 
 
